@@ -206,10 +206,9 @@ func (p *Plan) planSelectionSet(parentType *Object, selectionSet *ast.SelectionS
 func (p *Plan) planMergedFieldChildren(fp *fieldPlan) {
 	// Object returns resolve to a single concrete type, so plan their
 	// sub-selection eagerly.
-	if obj, ok := unwrapNamedType(fp.returnType).(*Object); ok {
-		fp.sub = p.planMergedSelectionsForType(obj, fp.fieldASTs)
-		return
-	}
+	// Object returns are planned lazily as well (see abstractAlternative):
+	// expanding them here makes planning exponential in the number of
+	// fragments that spread one another, whatever the data looks like.
 	// Abstract returns (Interface / Union) are planned lazily, per
 	// concrete type, the first time that type is actually encountered at
 	// execute time (see Plan.abstractAlternative). Eagerly expanding
@@ -889,6 +888,11 @@ func completePlannedObjectValue(eCtx *executionContext, returnType *Object, fp *
 	}
 	if fp.sub != nil {
 		return executePlannedSelection(eCtx, fp.sub, result, returnType, path)
+	}
+	if eCtx.plan != nil {
+		if sub := eCtx.plan.abstractAlternative(fp, returnType); sub != nil {
+			return executePlannedSelection(eCtx, sub, result, returnType, path)
+		}
 	}
 	// Fallback: planner didn't precompute (e.g. selection set was
 	// empty per validation, which shouldn't reach here for object
